@@ -294,7 +294,7 @@ func (g *gCase) spare() bool {
 /**************** corpus ****************/
 
 func (concEngine) Corpus() []Case {
-	var out []Case
+	out := []Case{{Ops: []string{"timeoutmw"}, Tag: "corpus:timeout-middleware"}}
 	add := func(tag string, g gCase) {
 		if g.groups == nil {
 			g.groups = map[int]gGroup{}
